@@ -18,7 +18,7 @@ ClassAlphabet ==
 
 \* ... and every token kind the scanner can produce
 FullAlphabet ==
-  { T3("Num", <<FALSE, <<1>>, 0>>), T3("Str", "s"), T3("Id", "a"), T3("typeof", "typeof"), T3("Unknown", "@") }
+  { T3("Num", <<FALSE, <<1>>, 0>>), T3("Str", <<115>>), T3("Id", "a"), T3("typeof", "typeof"), T3("Unknown", "@") }
   \cup { T3("Kw", w) : w \in {"true", "false", "null", "this", "ctx"} }
   \cup { OpT(k) : k \in {"(", ")", "[", "]", ".", "!.", "...", ",", "?", ":", "=",
                          "!", "!!", "~", "+", "-", "*", "/", "%", "<", ">", "<=", ">=",
